@@ -93,6 +93,9 @@ func mustAmino(cdc *amino.Codec, v any) []byte {
 	return b
 }
 
+const tmG0Note = "height 1 (first possible tendermint height)"
+const tmH0Note = "epoch-switch header at height 2 validated by the set G0 announced"
+const tmGzNote = "all-zero header (height 0, empty chain id, empty validator hashes, no commit) — accepted by the handler"
 const tmNote = "epoch-switch header at G1.height+1 whose validator set is the one G1 announced, full commit of real ed25519/secp256k1 precommit signatures"
 
 func genCosmos() *routerCase {
@@ -101,10 +104,16 @@ func genCosmos() *routerCase {
 	gh, gc, gv := tmSigned(cid, 100, s0, s1)
 	g2h, g2c, g2v := tmSigned(cid, 200, s0, s3)
 	hh, hc, hv := tmSigned(cid, 101, s1, s2)
+	s4, s5 := edSet("c4"), edSet("c5")
+	g0h, g0c, g0v := tmSigned(cid, 1, s0, s4)
+	h0h, h0c, h0v := tmSigned(cid, 2, s4, s5)
 	return &routerCase{name: "cosmos", router: utils.COSMOS_ROUTER, ccmc: []byte{1, 2, 3},
 		g1:  mustAmino(cosmos.Cdc, cosmos.CosmosHeader{Header: gh, Commit: gc, Valsets: gv}),
 		g2:  mustAmino(cosmos.Cdc, cosmos.CosmosHeader{Header: g2h, Commit: g2c, Valsets: g2v}),
-		hdr: [][]byte{mustAmino(cosmos.Cdc, cosmos.CosmosHeader{Header: hh, Commit: hc, Valsets: hv})}, hdrNote: tmNote}
+		hdr: [][]byte{mustAmino(cosmos.Cdc, cosmos.CosmosHeader{Header: hh, Commit: hc, Valsets: hv})}, hdrNote: tmNote,
+		g0: mustAmino(cosmos.Cdc, cosmos.CosmosHeader{Header: g0h, Commit: g0c, Valsets: g0v}), g0Note: tmG0Note,
+		hdr0: [][]byte{mustAmino(cosmos.Cdc, cosmos.CosmosHeader{Header: h0h, Commit: h0c, Valsets: h0v})}, hdr0Note: tmH0Note,
+		gz: mustAmino(cosmos.Cdc, cosmos.CosmosHeader{}), gzNote: tmGzNote, gzOptional: true}
 }
 
 func genOkex() *routerCase {
@@ -114,10 +123,16 @@ func genOkex() *routerCase {
 	gh, gc, gv := tmSigned(cid, 100, s0, s1)
 	g2h, g2c, g2v := tmSigned(cid, 200, s0, s3)
 	hh, hc, hv := tmSigned(cid, 101, s1, s2)
+	s4, s5 := edSet("o4"), edSet("o5")
+	g0h, g0c, g0v := tmSigned(cid, 1, s0, s4)
+	h0h, h0c, h0v := tmSigned(cid, 2, s4, s5)
 	return &routerCase{name: "okex", router: utils.OKEX_ROUTER, ccmc: []byte{1, 2, 3},
 		g1:  mustAmino(cdc, okex.CosmosHeader{Header: gh, Commit: gc, Valsets: gv}),
 		g2:  mustAmino(cdc, okex.CosmosHeader{Header: g2h, Commit: g2c, Valsets: g2v}),
-		hdr: [][]byte{mustAmino(cdc, okex.CosmosHeader{Header: hh, Commit: hc, Valsets: hv})}, hdrNote: tmNote}
+		hdr: [][]byte{mustAmino(cdc, okex.CosmosHeader{Header: hh, Commit: hc, Valsets: hv})}, hdrNote: tmNote,
+		g0: mustAmino(cdc, okex.CosmosHeader{Header: g0h, Commit: g0c, Valsets: g0v}), g0Note: tmG0Note,
+		hdr0: [][]byte{mustAmino(cdc, okex.CosmosHeader{Header: h0h, Commit: h0c, Valsets: h0v})}, hdr0Note: tmH0Note,
+		gz: mustAmino(cdc, okex.CosmosHeader{}), gzNote: tmGzNote, gzOptional: true}
 }
 
 // ---------------------------------------------------------------------------------------------
@@ -173,9 +188,12 @@ func hmSigned(chainID string, height int64, cur, next *hmSet) polygon.CosmosHead
 func genHeimdall() *routerCase {
 	const cid = "c19-heimdall"
 	cdc := pt.NewCDC()
-	s0, s1, s2, s3 := newHmSet("0"), newHmSet("1"), newHmSet("2"), newHmSet("3")
+	s0, s1, s2, s3, s4, s5 := newHmSet("0"), newHmSet("1"), newHmSet("2"), newHmSet("3"), newHmSet("4"), newHmSet("5")
 	return &routerCase{name: "polygon-heimdall", router: utils.POLYGON_HEIMDALL_ROUTER, ccmc: []byte{1, 2, 3},
 		g1:  mustAmino(cdc, hmSigned(cid, 100, s0, s1)),
 		g2:  mustAmino(cdc, hmSigned(cid, 200, s0, s3)),
-		hdr: [][]byte{mustAmino(cdc, hmSigned(cid, 101, s1, s2))}, hdrNote: tmNote}
+		hdr: [][]byte{mustAmino(cdc, hmSigned(cid, 101, s1, s2))}, hdrNote: tmNote,
+		g0: mustAmino(cdc, hmSigned(cid, 1, s0, s4)), g0Note: tmG0Note,
+		hdr0: [][]byte{mustAmino(cdc, hmSigned(cid, 2, s4, s5))}, hdr0Note: tmH0Note,
+		gz: mustAmino(cdc, polygon.CosmosHeader{}), gzNote: tmGzNote, gzOptional: true}
 }
